@@ -269,3 +269,18 @@ impl Bundle<&crate::FrameHeader> for Toc {
         })
     }
 }
+
+#[cfg(jxl_oxide_verif)]
+impl Toc {
+    /// Verification hook (H2): a TOC without any group, for frames built from headers only.
+    pub fn verif_empty() -> Self {
+        Self {
+            num_lf_groups: 0,
+            num_groups: 0,
+            groups: Vec::new(),
+            bitstream_to_original: Vec::new(),
+            original_to_bitstream: Vec::new(),
+            total_size: 0,
+        }
+    }
+}
